@@ -1175,4 +1175,205 @@ example : SnodeWf 1 3 #[5,2, 0,4, 2,4,1, 1,3,5] #[2,0,4,7] #[4,2,7,10] #[-1,0,-1
     #[9,9,9, 0,0,0,0,0, 0,0,0,0,0, 0] #[0,3,77,77,77] #[3,77,77,77] := by decide
 example : (snodeDfs 1 3 #[5,2, 0,4, 2,4,1, 1,3,5] #[2,0,4,7] #[4,2,7,10] #[3,77,77,77] #[-1,0,-1,0,-1,-1] #[0,1,77,77,77] #[0,0,-1,-1,-1]
     #[9,9,9, 0,0,0,0,0, 0,0,0,0,0, 0] #[0,3,77,77,77]).lsub.toList = [9,9,9, 5,2,4,1,3, 5,2,4,1,3, 0] := by decide
+
+/-- **dpruneL.c, one turn of the loop over `segrep`, ANY current state**: the subscripts are permuted by ONE
+permutation `σ` that maps the segment `[xlsub[irep], xlsub[irep+1])` to itself and is the identity elsewhere (so the
+pruned segment is a permutation of the original and nothing outside it changes); when the supernode has a single
+column the values `lusup[xlusup[irep] + ·]` are permuted by THE SAME `σ` (each pair `(lsub[k], lusup[k])` is preserved),
+otherwise `lusup` is untouched. -/
+theorem pruneL_step_perm {K : Type} (z : K) (a : PruneArgs) (st : PruneSt K) (i : Nat)
+    (h : PruneWf a st.lsub.size st.lusup.size st.xprune.size (a.segrep.getD i 0)) :
+    let irep := a.segrep.getD i 0
+    let lo := a.xlsub.getD irep 0
+    let hi := a.xlsub.getD (irep+1) 0
+    let xlu := a.xlusup.getD irep 0
+    let o := pruneStep z a st i
+    o.lsub.size = st.lsub.size ∧ o.lusup.size = st.lusup.size ∧ o.xprune.size = st.xprune.size ∧
+    ∃ σ : Equiv.Perm ℕ, (∀ k, k < lo ∨ hi ≤ k → σ k = k) ∧ (∀ k, lo ≤ k → k < hi → lo ≤ σ k ∧ σ k < hi) ∧
+      (∀ k, o.lsub.getD k 0 = st.lsub.getD (σ k) 0) ∧
+      (movnumOf a irep = true → ∀ k, lo ≤ k → k < hi → o.lusup.getD (xlu + (k - lo)) z = st.lusup.getD (xlu + (σ k - lo)) z) ∧
+      (movnumOf a irep = false → o.lusup = st.lusup) ∧
+      (∀ q, q < xlu ∨ xlu + (hi - lo) ≤ q → o.lusup.getD q z = st.lusup.getD q z) := by
+  intro irep lo hi xlu o
+  show (pruneStep z a st i).lsub.size = _ ∧ (pruneStep z a st i).lusup.size = _ ∧ (pruneStep z a st i).xprune.size = _ ∧
+    ∃ σ : Equiv.Perm ℕ, _ ∧ _ ∧ (∀ k, (pruneStep z a st i).lsub.getD k 0 = _) ∧
+      (_ → ∀ k, _ → _ → (pruneStep z a st i).lusup.getD _ z = _) ∧ (_ → (pruneStep z a st i).lusup = _) ∧
+      (∀ q, _ → (pruneStep z a st i).lusup.getD q z = _)
+  rw [pruneStep_eq]
+  by_cases hp : prunes a st irep = true
+  · rw [if_pos hp]
+    obtain ⟨hok, hx, _⟩ := pruneOne_ok z a st irep h
+    obtain ⟨σ, s1, s2, s3, s4⟩ := hok.perm
+    exact ⟨hok.size_ls, hok.size_lu, hx, σ, s1, s2, s3, s4, hok.lu_same,
+      fun q hq => hok.lu_frame q (by rcases hq with hq | hq; exact Or.inl (by omega); exact Or.inr hq)⟩
+  · rw [if_neg hp]
+    exact ⟨rfl, rfl, rfl, Equiv.refl _, fun _ _ => rfl, fun k h1 h2 => ⟨h1, h2⟩, fun _ => rfl, fun _ _ _ _ => rfl, fun _ => rfl, fun _ _ => rfl⟩
+
+/-- **dpruneL.c, one turn, the cut**: when the turn partitions `irep` (`prunes`: the skip tests pass, not pruned yet,
+pivot row present), afterwards `xprune[irep] = p` with `xlsub[irep] ≤ p ≤ xlsub[irep+1]`, EVERY entry of
+`[xlsub[irep], p)` is a pivoted row and EVERY entry of `[p, xlsub[irep+1])` is not; a leading run of pivoted rows
+(the diagonal block) stays in place; no other `xprune` entry changes.  Otherwise the state is unchanged.
+The partition loop is run with fuel `hi - lo`; `pruneL_partition_terminates` shows the fuel is not what ends it. -/
+theorem pruneL_step_cut {K : Type} (z : K) (a : PruneArgs) (st : PruneSt K) (i : Nat)
+    (h : PruneWf a st.lsub.size st.lusup.size st.xprune.size (a.segrep.getD i 0)) :
+    let irep := a.segrep.getD i 0
+    let lo := a.xlsub.getD irep 0
+    let hi := a.xlsub.getD (irep+1) 0
+    let o := pruneStep z a st i
+    (prunes a st irep = false → o = st) ∧
+    (prunes a st irep = true →
+      lo ≤ o.xprune.getD irep 0 ∧ o.xprune.getD irep 0 ≤ hi ∧
+      (∀ k, lo ≤ k → k < o.xprune.getD irep 0 → pivoted a.permR (o.lsub.getD k 0) = true) ∧
+      (∀ k, o.xprune.getD irep 0 ≤ k → k < hi → pivoted a.permR (o.lsub.getD k 0) = false) ∧
+      (∀ e, (∀ k, lo ≤ k → k < e → pivoted a.permR (st.lsub.getD k 0) = true) → ∀ k, k < e → o.lsub.getD k 0 = st.lsub.getD k 0) ∧
+      (∀ j, j ≠ irep → o.xprune.getD j 0 = st.xprune.getD j 0)) := by
+  intro irep lo hi o
+  show (_ → pruneStep z a st i = st) ∧ (_ → _ ≤ (pruneStep z a st i).xprune.getD irep 0 ∧ (pruneStep z a st i).xprune.getD irep 0 ≤ _ ∧
+    (∀ k, _ → k < (pruneStep z a st i).xprune.getD irep 0 → pivoted a.permR ((pruneStep z a st i).lsub.getD k 0) = true) ∧
+    (∀ k, (pruneStep z a st i).xprune.getD irep 0 ≤ k → _ → pivoted a.permR ((pruneStep z a st i).lsub.getD k 0) = false) ∧
+    (∀ e, _ → ∀ k, _ → (pruneStep z a st i).lsub.getD k 0 = _) ∧
+    (∀ j, _ → (pruneStep z a st i).xprune.getD j 0 = _))
+  rw [pruneStep_eq]
+  refine ⟨fun hp => by rw [hp]; rfl, fun hp => ?_⟩
+  rw [if_pos hp]
+  obtain ⟨hok, _, hx⟩ := pruneOne_ok z a st irep h
+  refine ⟨hok.lo_le, hok.le_hi, hok.front, hok.back, ?_, hx⟩
+  intro e he k hk
+  exact (partLoop_lead z a.permR (movnumOf a irep) (a.xlusup.getD irep 0) lo (hi - lo) lo hi st.lsub st.lusup e
+    (le_refl _) (le_refl _) h.mono h.inb (fun hm => by have := h.lu hm; omega) he k hk).1
+
+/-- **termination of the partition loop**: any larger fuel gives the same result, i.e. the `while (kmin <= kmax)`
+loop of dpruneL.c:117-149 ends through its own test for all inputs (each turn shrinks `kmax - kmin`). -/
+theorem pruneL_partition_terminates {K : Type} (z : K) (permR : Array Int) (movnum : Bool) (xlu xl lo hi g : Nat)
+    (ls : Array Nat) (lu : Array K) :
+    partLoop z permR movnum xlu xl (hi - lo + g) lo hi ls lu = partLoop z permR movnum xlu xl (hi - lo) lo hi ls lu :=
+  partLoop_fuel_add z permR movnum xlu xl (hi - lo) g lo hi ls lu (le_refl _)
+
+/-- the fold of `pruneStep` over any list of turns -/
+theorem pruneL_fold_perm {K : Type} (z : K) (a : PruneArgs) : ∀ (is : List Nat) (st : PruneSt K),
+    (∀ i ∈ is, PruneWf a st.lsub.size st.lusup.size st.xprune.size (a.segrep.getD i 0)) →
+    let o := is.foldl (pruneStep z a) st
+    o.lsub.size = st.lsub.size ∧ o.lusup.size = st.lusup.size ∧ o.xprune.size = st.xprune.size ∧
+    ∃ σ : Equiv.Perm ℕ, (∀ k, o.lsub.getD k 0 = st.lsub.getD (σ k) 0) ∧
+      (∀ k, (∀ i ∈ is, ¬ (a.xlsub.getD (a.segrep.getD i 0) 0 ≤ k ∧ k < a.xlsub.getD (a.segrep.getD i 0 + 1) 0)) → σ k = k) := by
+  intro is
+  induction is with
+  | nil => intro st _; exact ⟨rfl, rfl, rfl, Equiv.refl _, fun _ => rfl, fun _ _ => rfl⟩
+  | cons i is ih =>
+    intro st hwf
+    obtain ⟨z1, z2, z3, σ1, s1, _, s3, _⟩ := pruneL_step_perm z a st i (hwf i (List.mem_cons_self ..))
+    have := ih (pruneStep z a st i) (by rw [z1, z2, z3]; exact fun j hj => hwf j (List.mem_cons_of_mem _ hj))
+    obtain ⟨y1, y2, y3, σ2, t1, t2⟩ := this
+    refine ⟨by rw [List.foldl_cons, y1, z1], by rw [List.foldl_cons, y2, z2], by rw [List.foldl_cons, y3, z3], σ2.trans σ1, ?_, ?_⟩
+    · intro k; rw [List.foldl_cons, t1, s3]; rfl
+    · intro k hk
+      have h2 : σ2 k = k := t2 k (fun j hj => hk j (List.mem_cons_of_mem _ hj))
+      have h1 : σ1 k = k := by
+        apply s1
+        have := hk i (List.mem_cons_self ..)
+        omega
+      simp [Equiv.trans_apply, h2, h1]
+
+/-- **dpruneL.c, the whole call**: `lsub` afterwards is `lsub` before read through ONE permutation `σ` of the
+positions, and `σ` is the identity on every position that lies in no segment `[xlsub[irep], xlsub[irep+1])` of a
+listed representative: as a multiset `lsub` is unchanged and everything outside the processed segments is unchanged;
+all sizes are kept.  (That `σ` maps each segment to itself is `pruneL_step_perm`, turn by turn.) -/
+theorem pruneL_perm {K : Type} (z : K) (a : PruneArgs) (nseg : Nat) (st : PruneSt K)
+    (hwf : ∀ i < nseg, PruneWf a st.lsub.size st.lusup.size st.xprune.size (a.segrep.getD i 0)) :
+    let o := pruneL z a nseg st
+    o.lsub.size = st.lsub.size ∧ o.lusup.size = st.lusup.size ∧ o.xprune.size = st.xprune.size ∧
+    ∃ σ : Equiv.Perm ℕ, (∀ k, o.lsub.getD k 0 = st.lsub.getD (σ k) 0) ∧
+      (∀ k, (∀ i < nseg, ¬ (a.xlsub.getD (a.segrep.getD i 0) 0 ≤ k ∧ k < a.xlsub.getD (a.segrep.getD i 0 + 1) 0)) → σ k = k) := by
+  have := pruneL_fold_perm z a (List.range nseg) st (fun i hi => hwf i (List.mem_range.1 hi))
+  obtain ⟨a1, a2, a3, σ, s1, s2⟩ := this
+  exact ⟨a1, a2, a3, σ, s1, fun k hk => s2 k (fun i hi => hk i (List.mem_range.1 hi))⟩
+
+/-- **link to `prune_preserves_reach` / `luFactor_pruned_dfs` (Lemmas/Prune.lean)**.  `rowOf` is the FINAL pivot
+numbering; at the call the pivoted rows are exactly those numbered `≤ jcol`, and `pivrow` is number `jcol`.  When a
+turn partitions `irep`, the rows left in `[xlsub[irep], xprune[irep])`, in pivot numbering, are exactly
+`LU.pruneAdj p adj irep` for the cut `p irep = some jcol` of the full list `adj irep`, and `jcol ∈ adj irep` — the first
+half of `LU.PruneOkAdj` / `Symb.PruneOk` (`struct irep jcol`: the pair is symmetric on the L side, checked by the
+`do_prune` search).  What remains of `PruneOk` is the fill property of the pair, which `Symb.fillSym_colStruct` gives
+for the symbolic structure whenever `irep` is in the U-structure of `jcol` (`irep ∈ segrep`, `repfnz[irep] ≠ EMPTY`:
+the depth-first search's output, family `symb`/`lu` by correspondence). -/
+theorem pruneL_cut_pruneAdj {K : Type} (z : K) (a : PruneArgs) (st : PruneSt K) (i : Nat) (rowOf : Nat → Nat)
+    (h : PruneWf a st.lsub.size st.lusup.size st.xprune.size (a.segrep.getD i 0))
+    (hpiv : ∀ r, pivoted a.permR r = true ↔ rowOf r ≤ a.jcol) (hpr : rowOf a.pivrow = a.jcol)
+    (hp : prunes a st (a.segrep.getD i 0) = true) :
+    let irep := a.segrep.getD i 0
+    let lo := a.xlsub.getD irep 0
+    let hi := a.xlsub.getD (irep+1) 0
+    let o := pruneStep z a st i
+    let adj : Nat → List Nat := fun _ => (segList st.lsub lo (hi - lo)).map rowOf
+    let p : Nat → Option Nat := fun k => if k = irep then some a.jcol else none
+    a.jcol ∈ adj irep ∧
+    ∀ x, x ∈ (segList o.lsub lo (o.xprune.getD irep 0 - lo)).map rowOf ↔ x ∈ LU.pruneAdj p adj irep := by
+  intro irep lo hi o adj p
+  obtain ⟨_, hcut⟩ := pruneL_step_cut z a st i h
+  obtain ⟨c1', c2', c3', c4', _, _⟩ := hcut hp
+  obtain ⟨_, _, _, σ, s1', s2', s3', _⟩ := pruneL_step_perm z a st i h
+  have c1 : lo ≤ o.xprune.getD irep 0 := c1'
+  have c2 : o.xprune.getD irep 0 ≤ hi := c2'
+  have c3 : ∀ k, lo ≤ k → k < o.xprune.getD irep 0 → pivoted a.permR (o.lsub.getD k 0) = true := c3'
+  have c4 : ∀ k, o.xprune.getD irep 0 ≤ k → k < hi → pivoted a.permR (o.lsub.getD k 0) = false := c4'
+  have s1 : ∀ k, k < lo ∨ hi ≤ k → σ k = k := s1'
+  have s2 : ∀ k, lo ≤ k → k < hi → lo ≤ σ k ∧ σ k < hi := s2'
+  have s3 : ∀ k, o.lsub.getD k 0 = st.lsub.getD (σ k) 0 := s3'
+  clear c1' c2' c3' c4' s1' s2' s3'
+  have hmemseg : ∀ (ls : Array Nat) (n : Nat) (x : Nat), x ∈ (segList ls lo n).map rowOf ↔ ∃ k, lo ≤ k ∧ k < lo + n ∧ rowOf (ls.getD k 0) = x := by
+    intro ls n x
+    simp only [segList, List.mem_map, List.mem_range]
+    constructor
+    · rintro ⟨r, ⟨t, ht, rfl⟩, rfl⟩; exact ⟨lo + t, by omega, by omega, rfl⟩
+    · rintro ⟨k, h1, h2, rfl⟩; exact ⟨_, ⟨k - lo, by omega, rfl⟩, by rw [show lo + (k - lo) = k by omega]⟩
+  constructor
+  · -- the `do_prune` search found the pivot row
+    have hd : doPrune a st.lsub st.xprune irep = true := by
+      have : (eligible a irep && doPrune a st.lsub st.xprune irep) = true := hp
+      exact (Bool.and_eq_true _ _ ▸ this).2
+    unfold doPrune at hd
+    rw [Bool.and_eq_true, List.any_eq_true] at hd
+    obtain ⟨k, hk, hk2⟩ := hd.2
+    rw [List.mem_range'_1] at hk
+    show a.jcol ∈ (segList st.lsub lo (hi - lo)).map rowOf
+    rw [hmemseg]
+    refine ⟨k, hk.1, by have := hk.2; omega, ?_⟩
+    have : st.lsub.getD k 0 = a.pivrow := by simpa using hk2
+    rw [this, hpr]
+  · intro x
+    rw [LU.mem_pruneAdj]
+    show x ∈ (segList o.lsub lo (o.xprune.getD irep 0 - lo)).map rowOf ↔
+      x ∈ (segList st.lsub lo (hi - lo)).map rowOf ∧ ∀ c, (if irep = irep then some a.jcol else none) = some c → x ≤ c
+    rw [hmemseg, hmemseg, if_pos rfl]
+    constructor
+    · rintro ⟨k, h1, h2, rfl⟩
+      have hk2 : k < o.xprune.getD irep 0 := by omega
+      have hr := s2 k h1 (by omega)
+      refine ⟨⟨σ k, hr.1, by omega, by rw [← s3]⟩, ?_⟩
+      intro c hc; cases hc
+      exact (hpiv _).1 (c3 k h1 hk2)
+    · rintro ⟨⟨k', h1, h2, rfl⟩, hle⟩
+      have hle' := hle _ rfl
+      have hk'hi : k' < hi := by omega
+      -- k' = σ k with k in the segment
+      have hin : lo ≤ σ.symm k' ∧ σ.symm k' < hi := by
+        by_contra hcon
+        have : σ (σ.symm k') = σ.symm k' := s1 _ (by omega)
+        rw [Equiv.apply_symm_apply] at this
+        rw [← this] at hcon; exact hcon ⟨h1, hk'hi⟩
+      refine ⟨σ.symm k', hin.1, ?_, by rw [s3, Equiv.apply_symm_apply]⟩
+      have hpv : pivoted a.permR (o.lsub.getD (σ.symm k') 0) = true := by
+        rw [s3, Equiv.apply_symm_apply]; exact (hpiv _).2 hle'
+      by_contra hcon
+      have := c4 (σ.symm k') (by omega) hin.2
+      rw [hpv] at this; exact Bool.noConfusion this
+
+/-- a singleton supernode (column 0) whose list `[3,0,4,5,2]` is partitioned at column 3: rows 3,4,2 are pivoted -/
+def exPruneArgs : PruneArgs := ⟨3, #[-1,2,1,0,3,-1], 4, #[0], #[0,-1,-1,-1], #[0,1,2,3,4], #[0,1,2,3,3], #[0,5,6,7,8], #[0,5,6,7,8]⟩
+def exPruneSt : PruneSt Int := ⟨#[3,0,4,5,2, 2, 1, 4], #[10,11,12,13,14, 15, 16, 17], #[5,6,7,8]⟩
+example : PruneWf exPruneArgs 8 8 4 0 := by decide
+example : prunes exPruneArgs exPruneSt 0 = true := by decide
+example : (pruneL (0 : Int) exPruneArgs 1 exPruneSt).lsub.toList = [3,2,4,5,0, 2, 1, 4] ∧
+    (pruneL (0 : Int) exPruneArgs 1 exPruneSt).lusup.toList = [10,14,12,13,11, 15, 16, 17] ∧
+    (pruneL (0 : Int) exPruneArgs 1 exPruneSt).xprune.toList = [3,6,7,8] := by decide
 end Slu.SymbArr
